@@ -2121,6 +2121,16 @@ class Walker:
                         return self._ev_in_module(node_c, mi_c)
                     except AnalysisError:
                         pass
+            if base == ("self",) and isinstance(e.ctx, ast.Load) and self.self_class and self.repo.has_class(self.self_class):
+                # a read-only property the API table does not have (a computed view added by the change): its body
+                for ci_g in self.repo.mro(self.self_class):
+                    g = ci_g.getters.get(e.attr)
+                    if g is not None:
+                        if api_signature(g) is None and e.attr not in ci_g.setters and g not in self.fnstack \
+                                and len(self.fnstack) <= self.max_depth and all(
+                                    d.split("(")[0].split(".")[-1] == "property" for d in g.decorators):
+                            return self.inline_call(g, ("self",), (), (), e)
+                        break
             if base == ("self",) and isinstance(e.ctx, ast.Load) and self.self_class:
                 ext = extension_fields(self.repo, self.self_class)
                 if e.attr.lstrip("_") in ext and self.fnstack[-1].name != "__init__" \
@@ -2689,7 +2699,7 @@ class Walker:
         return None
 
     def inline_call(self, fi: FunctionInfo, recv, args, kwargs, e: ast.Call, outer_env=None) -> Term:
-        if any(d.split("(")[0].split(".")[-1] not in ("staticmethod", "njit", "jit") for d in fi.decorators):
+        if any(d.split("(")[0].split(".")[-1] not in ("staticmethod", "njit", "jit", "property") for d in fi.decorators):
             # a decorated helper is not its body (memoisation, wrapping, ...): keep the call opaque
             fn = ("attr", recv, fi.name) if recv is not None else ("mod", fi.fq)
             t = ("call", fn, args, kwargs)
